@@ -750,6 +750,31 @@ pub fn run(scn: &PnmScenario, record: bool) -> RunResult {
         }
     }
 
+    // G: a premature end-of-file answer followed by more data. Stopping there is right,
+    // carrying on is right, an error is fine; an image that is neither the prefix's nor
+    // the whole file's is not.
+    if eof_resumed > 0 && rd_err == 0 && eof_stop == 0 && !matches!(refv.body, RefBody::Unsure(_)) {
+        let at = core.borrow().resumed_at.unwrap_or(0);
+        if let (Some(sout), Some(whole)) = (&streamed_out, &base_out) {
+            let prefix = decode_plain(&bytes[..at]).ok().map(|r| observe(r, "", &None, &mut RunResult::default()));
+            let ok = matches!(sout, PnmOut::Err(_)) || diff(sout, whole) == "equal" || prefix.as_ref().map_or(false, |p| diff(sout, p) == "equal");
+            rr.oracle("G", ok);
+            if !ok {
+                rr.violate(Violation::new(
+                    "G",
+                    "hybrid-image-after-premature-eof",
+                    format!(
+                        "the source answered Ok(0) once after {at} of {} bytes of a well-formed file and then went on; read_pnm answered {}, which is neither what the first {at} bytes say ({}) nor what the whole file says ({})",
+                        bytes.len(),
+                        sout.brief(),
+                        prefix.as_ref().map_or("a panic".into(), |p| p.brief()),
+                        whole.brief()
+                    ),
+                ));
+            }
+        }
+    }
+
     // F: a failing stream may cost the result, never falsify it. If the file on disk
     // is well-formed and the plain decode of it is right (X), then after a read error
     // the streamed decode answers with an error or with that very image.
